@@ -36,6 +36,20 @@ PROPS = {
         "assumptions": ["an underlying Write that returns an error did not deliver the message", "a redialled connection delivers one handshake message first (consumed by the library)",
                         "a Read after Close may still return messages that were already buffered (finite), then must error"],
     },
+    "C19": {
+        "level": "exploration",
+        "groups": [g("main", "c19", q=8, t=32, run="^Test(Regress|Prop)$", gomaxprocs=[4, 1, 2, 16])],
+        "timeout": {"quick": 300, "thorough": 1800},
+        "rule": ("generated: 1-5 scripted member transports; scheduler in {event channel, NIC subscriber (known/unknown NIC names), polling with a "
+                 "scripted poller, real RoundRobinPoller, real LastUsedPoller}; initial id valid / foreign / empty; histories of up to 25 ops "
+                 "{emit(member | foreign | empty id), write, member delivers a message, read, AsUnreliable, NegotiationParams, counters}. After emitting a "
+                 "member id the model waits until NegotiationParams reports it; after a foreign/empty id only survival is required and the previous "
+                 "member stays selected. Oracle: write log of the selected member, exactly one member per write, merged reads (multiset + per-member "
+                 "order), Close fan-out, counter sums, no panic/hang in any call. Non-trivial = >=2 members with a selection change between writes, "
+                 "or a foreign/empty id (initial or emitted); distinct by case hash."),
+        "assumptions": ["selection is applied asynchronously; routing is only predicted after the selection became visible through NegotiationParams",
+                        "with the real RoundRobin/LastUsed pollers the selected member at write time is not predictable; there only 'exactly one member' is checked"],
+    },
     "C20": {
         "level": "exploration",
         "groups": [g("main", "c20", q=8, t=32, run="^Test(Regress|Single|Concurrent|Interval)$", gomaxprocs=[4, 1, 2, 16])],
